@@ -973,19 +973,23 @@ def gen_binary_case(rng, cls):
         attrs[rng.randrange(k)].author = rng.choice(AUTHORS_WIDE)
     if cls == "one-char-author":
         attrs[rng.randrange(k)].author = rng.choice(AUTHORS_ONE)
-    L = rng.randint(1, 60) if cls == "clean" else (rng.randint(2, 24) if cls == "fmt-grammar" else rng.randint(2, 12))
+    L = rng.randint(1, 60) if cls == "clean" else (rng.randint(2, 24) if cls == "fmt-grammar" or cls.startswith("numbers:")
+                                                   else rng.randint(2, 12))
     hist = []
     while len(hist) < L:
         hist += [rng.randrange(k)] * rng.choice([1, 1, 2, 3, 6])
     hist = hist[:L]
     tab = rng.choice([None, None, 0, 4])
     items = []
-    n0 = rng.choice([1, 1, 1, 95, 995, 9998])
+    scheme = "consecutive"
+    if cls.startswith("numbers:"):
+        scheme, cls = cls.split(":", 1)[1], "clean"
+    nums, cols = gen_numbers(rng, L, scheme)
     for n, kk in enumerate(hist):
         code = gen_code(rng)
         while has_lookalike(code):
             code = gen_code(rng)
-        items.append(dict(attr=attrs[kk], n=n0 + n, code=code, git=False))
+        items.append(dict(attr=attrs[kk], n=nums[n], code=code, git=False, col=cols[n]))
     if cls == "lookalike-code":
         it = rng.choice(items)
         it["code"] = " log(\"%s %s %d) y\")" % (rng.choice(["x", "at"]), gen_ts(rng), rng.randint(0, 99))
@@ -1003,14 +1007,14 @@ def gen_binary_case(rng, cls):
         # the blame format is generated over the whole placeholder grammar (always with a {commit} placeholder)
         gfmt = gen_format(rng, force_shape=rng.choice(FMT_SHAPES))
         fmt = gfmt["text"]
-    return dict(cls=cls, attrs=attrs, items=items, pal=pal, fmt=fmt, sep=sep, tab=tab, gfmt=gfmt,
+    return dict(cls=cls, attrs=attrs, items=items, pal=pal, fmt=fmt, sep=sep, tab=tab, gfmt=gfmt, scheme=scheme,
                 via=rng.choice(["stub-git", "stdin"]), pads=[(rng.choice([1, 1, 2, 6]), rng.choice([1, 2, 3])) for _ in items])
 
 
 def case_lines(case):
     out = []
     for it, (pa, pb) in zip(case["items"], case["pads"]):
-        l = blame_line(it["attr"], it["n"], it["code"], pa, pb)
+        l = blame_line(it["attr"], it["n"], it["code"], pa, pb, col=it.get("col"))
         if it["git"]:
             head, tail = l.split(")", 1) if ")" in l else (l, "")
             l = "\x1b[36m" + head + ")\x1b[m" + tail
@@ -1047,11 +1051,15 @@ def eval_binary(ctx, rep, case, res, mdl_resp=None, model_checked=None):
     g = case.get("gfmt")
     if g:
         cls = fmt_class(g) if cls == "clean" else cls + "+" + fmt_class(g)
+    elif cls == "clean":
+        # nothing else unusual in the stream: name how its line numbers run (within one attribution)
+        cls = number_class(case["items"]) or "clean"
     tab = 8 if case["tab"] is None else case["tab"]
     replay = dict(kind="binary", args=args, via=case["via"], stdin_b64=b64(("\n".join(lines) + "\n").encode()),
                   lines=lines, cls=cls,
                   spec=dict(items=[dict(commit=it["attr"].commit, author=it["attr"].author, ts=it["attr"].ts,
-                                        file=it["attr"].file, n=it["n"], code=it["code"], git=it["git"]) for it in case["items"]],
+                                        file=it["attr"].file, n=it["n"], code=it["code"], git=it["git"], col=it.get("col"))
+                                   for it in case["items"]],
                             pal=case["pal"], fmt=case["fmt"], sep=SEP_FORMATS.index(case["sep"]), tab=case["tab"],
                             pads=case["pads"], gfmt=g))
     rep.case(key=("binary", tuple(args), tuple(lines), case["via"]),
@@ -1060,6 +1068,7 @@ def eval_binary(ctx, rep, case, res, mdl_resp=None, model_checked=None):
     rep.count("binary:" + cls)
     rep.count("binary-lines", len(lines))
     rep.count("binary-via:" + case["via"])
+    rep.count("binary-numbering:" + case.get("scheme", "consecutive"))
     errt = err.decode("utf-8", "replace")
     if rc == "timeout":
         rep.violation("hang:binary:" + cls, "delta does not terminate on a blame stream", replay)
@@ -1088,6 +1097,9 @@ def eval_binary(ctx, rep, case, res, mdl_resp=None, model_checked=None):
         c2 = cls
         if g and rule.startswith("attribution-"):     # name the shape of the placeholder that is not shown
             c2 = fmt_class(g, rule.split("-", 1)[1])
+        elif cls.startswith("line-number-") and rule in ("same-attribution-same-colour", "blank-only-on-repeat", "line-number"):
+            # name how the number of the failing row relates to the row above
+            c2 = number_relation(case["items"], i) or cls
         rep.violation("%s:%s" % (rule, c2), "blame output row %d breaks rule '%s'" % (i, rule),
                       dict(replay, rule=rule, row_index=i, detail=detail))
     return rows
@@ -1100,6 +1112,10 @@ def part_binary(ctx, rep, hook, mdl, widths, cdata):
     plan = [("clean", ctx.n(420, 12000)), ("wide-author", ctx.n(25, 300)), ("one-char-author", ctx.n(25, 300)),
             ("lookalike-code", ctx.n(25, 300)), ("git-coloured", ctx.n(25, 300)),
             ("fmt-grammar", ctx.n(160, 4000))]
+    # the other ways a blame stream is numbered: several -L ranges (forward gaps, also inside one commit), ranges out of
+    # order / second listings / descending (backward jumps), repeated numbers, -n / -M / -C original-number columns
+    per = ctx.n(26, 700)
+    plan += [("numbers:" + sch, per) for sch in NUMBER_SCHEMES if sch != "consecutive"]
     for cls, n in plan:
         for _ in range(n):
             cases.append(gen_binary_case(rng, cls))
@@ -1367,7 +1383,7 @@ def replay(ctx, rep, obj):
         for it in sp["items"]:
             a = attrs.setdefault((it["commit"], it["author"], it["ts"], it["file"]),
                                  Attr(it["commit"], it["author"], it["ts"], it["file"]))
-            items.append(dict(attr=a, n=it["n"], code=it["code"], git=it["git"]))
+            items.append(dict(attr=a, n=it["n"], code=it["code"], git=it["git"], col=it.get("col")))
         g = sp.get("gfmt")
         if g:
             g = dict(g, pieces=[(lit, spc) for lit, spc in g["pieces"]])
